@@ -4,6 +4,14 @@ import json, os
 V = os.path.dirname(os.path.dirname(os.path.abspath(__file__)))
 
 CHECKS = {
+ "C06": dict(cat="model_checking", ref="DESIGN.md section 5 C06",
+   text="TLA+ CurlMC: a bit-sliced mini sponge shaped like curl.go (rate reset for all lanes, `in` only clears bits, transform placement in Squeeze, Reset, Clone, rejected calls) is model-checked to refine independent per-lane sponges of module CurlP81 for all histories up to a depth over two instances. Real Curl objects are driven through seeded histories (pooled block keys so equal histories meet at different lane positions, batch sizes 1..64, one-call vs split absorbs of the same histories, split squeezes, diverging clones, resets, rejected calls); the stateful trace specification keeps term -> output and rejects any term observed with two outputs, wrong error answers or touched state, and evaluates the Curl-P-81 sponge itself (729 trits, 81 rounds, in TLC) for audited lanes.",
+   note="Trusted: TLC/SANY/CommunityModules, Go toolchain, collision freedom of the SHA-256 output fingerprints. The scaled model (hash length 1, 2-3 lanes, 2 rounds) carries the structural argument; real-size behaviour is bound by sampled histories and audited lanes.",
+   tech="explicit TLA+ spec + TLC refinement model (bit-sliced vs per-lane) + stateful trace validation with TLC-evaluated Curl-P-81 anchors"),
+ "C20": dict(cat="model_checking", ref="DESIGN.md section 5 C20",
+   text="TLA+ CurlP81 defines the round function at trit and at bit-pair level; TLC checks their agreement on all cell pairs and the index walk. The real transform (assembly build and purego build) and transformGeneric are run on seeded bit-sliced states incl. non-trit cells, the reset state and degenerate planes, with every buffer placed against PROT_NONE guard pages; whole-state equality asm==portable is required and for audited lanes TLC evaluates 81 rounds of the definition on the 729 cells and compares.",
+   note="Trusted: TLC/SANY/CommunityModules, Go toolchain and assembler, lane-locality of bitwise instructions for non-audited lanes. States are sampled (2^(2*729*64) cannot be enumerated); the reduction to 4 values per cell pair is checked in the model.",
+   tech="explicit TLA+ spec evaluated by TLC at real size on audited lanes + guard-page differential traces under both builds"),
  "C03": dict(cat="model_checking", ref="DESIGN.md section 5 C03",
    text="TLA+ module Bip39: a parameterised bit-level codec; TLC checks it exhaustively at a scaled size (all 1- and 2-byte entropies, all index sequences: round trip incl. leading/trailing zero bytes, accept <=> re-encodes to itself). At real size TLC-chosen boundary entropies are replayed and stateful traces (the SetWordList event logs the word dump = specification state; language switches interleaved) are validated by TLC, which recomputes sentence, acceptance, entropy and error kind from SHA-256 facts. Embedded word lists are pinned by digest and checked structurally by TLC.",
    note="Trusted: TLC/SANY/CommunityModules, Go toolchain, crypto/sha256 as fact provider (TLC rejects a fact that is not about the entropy the spec derives), pinned digests of the word lists (official files unavailable offline). Real-size entropies are sampled/boundary-generated, not exhaustive.",
